@@ -446,10 +446,18 @@ pub fn engine_with_rec_txs(
 
 pub type Ev = EngineEvent<DataKind>;
 
+/// Local receipt time of a market message: a monotone receive clock, later than every exchange
+/// timestamp used by the workloads (a late message is still received late). Properties speak about
+/// EXCHANGE time; keeping the two different makes a mix-up of the fields observable.
+pub fn next_receive_time() -> DateTime<Utc> {
+    static RECV: std::sync::atomic::AtomicI64 = std::sync::atomic::AtomicI64::new(0);
+    t(100_000_000 + RECV.fetch_add(1, Ordering::Relaxed))
+}
+
 pub fn ev_market_trade(exchange: ExchangeId, instrument: usize, time_ms: i64, price: f64) -> Ev {
     EngineEvent::Market(MarketStreamEvent::Item(MarketEvent {
         time_exchange: t(time_ms),
-        time_received: t(time_ms),
+        time_received: next_receive_time(),
         exchange,
         instrument: InstrumentIndex(instrument),
         kind: DataKind::Trade(PublicTrade {
@@ -470,7 +478,7 @@ pub fn ev_market_l1(
 ) -> Ev {
     EngineEvent::Market(MarketStreamEvent::Item(MarketEvent {
         time_exchange: t(time_ms),
-        time_received: t(time_ms),
+        time_received: next_receive_time(),
         exchange,
         instrument: InstrumentIndex(instrument),
         kind: DataKind::OrderBookL1(OrderBookL1 {
